@@ -172,6 +172,83 @@ inline void split_edge_of_face(TriMesh& m, size_t t, int k) {
             }
 }
 
+
+// Connected sum along a triangle: triangle `ta` of `a` and triangle `tb` of `b` are removed and `b` is mapped affinely so that the two
+// boundary triangles coincide (with opposite orientation) and `b` sits on the outer side of `a`, `height` times as tall as the face is
+// wide. The result is again a closed, consistently oriented genus-0 surface; the three glued nodes form a cycle of edges that bounds
+// no face (a "waist"), the configuration the edge-collapse / edge-swap guards of the refiner exist for.
+inline TriMesh glue(const TriMesh& a, size_t ta, const TriMesh& b, size_t tb, double height) {
+    const unsigned a0 = a.tri[3 * ta], a1 = a.tri[3 * ta + 1], a2 = a.tri[3 * ta + 2];
+    const unsigned b0 = b.tri[3 * tb], b1 = b.tri[3 * tb + 1], b2 = b.tri[3 * tb + 2];
+    V3 A0 = a.p(a0), nA = (a.p(a1) - A0).cross(a.p(a2) - A0), B0 = b.p(b0), nB = (b.p(b1) - B0).cross(b.p(b2) - B0);
+    const ld la = sqrtl(nA.norm()), lb = sqrtl(nB.norm());
+    if (!(la > 0) || !(lb > 0)) return a;
+    // linear map M with M(b1-b0) = a2-a0, M(b2-b0) = a1-a0, M(-nB/|nB| * lb) = nA/|nA| * la * height
+    V3 e1 = b.p(b1) - B0, e2 = b.p(b2) - B0, e3 = nB * (-lb / nB.norm());
+    V3 f1 = a.p(a2) - A0, f2 = a.p(a1) - A0, f3 = nA * (la * height / nA.norm());
+    // coordinates of a vector v in the basis (e1,e2,e3) through the dual basis
+    const ld det = e1.dot(e2.cross(e3));
+    V3 d1 = e2.cross(e3) * (1 / det), d2 = e3.cross(e1) * (1 / det), d3 = e1.cross(e2) * (1 / det);
+    TriMesh m = a;
+    m.tri.erase(m.tri.begin() + 3 * ta, m.tri.begin() + 3 * ta + 3);
+    std::vector<unsigned> map(b.nn());
+    for (size_t i = 0; i < b.nn(); i++) {
+        if (i == b0) map[i] = a0;
+        else if (i == b1) map[i] = a2;
+        else if (i == b2) map[i] = a1;
+        else {
+            V3 v = b.p((unsigned)i) - B0;
+            V3 q = A0 + f1 * v.dot(d1) + f2 * v.dot(d2) + f3 * v.dot(d3);
+            map[i] = add_node(m, q.x, q.y, q.z);
+        }
+    }
+    for (size_t t = 0; t < b.nt(); t++)
+        if (t != tb) add_tri(m, map[b.tri[3 * t]], map[b.tri[3 * t + 1]], map[b.tri[3 * t + 2]]);
+    return m;
+}
+
+struct LobeSpec {
+    unsigned face = 0;  // index into the hub's not yet glued original faces
+    int family = 0;     // 0 tetra 1 octa 2 icosphere(0) 3 bipyramid(3..5) 4 icosphere(1)
+    int param = 3;
+    double height = 1;
+};
+// hub with lobes glued on some of its original faces (two lobes on a tetrahedral hub give two waists sharing an edge)
+inline TriMesh with_lobes(const TriMesh& hub, const std::vector<LobeSpec>& lobes) {
+    TriMesh m = hub;
+    std::vector<std::array<unsigned, 3>> avail;
+    for (size_t t = 0; t < hub.nt(); t++) avail.push_back({hub.tri[3 * t], hub.tri[3 * t + 1], hub.tri[3 * t + 2]});
+    for (auto& l : lobes) {
+        if (avail.size() <= 1) break;
+        const size_t pick = l.face % avail.size();
+        auto key = avail[pick];
+        avail.erase(avail.begin() + pick);
+        size_t ta = m.nt();
+        for (size_t t = 0; t < m.nt(); t++)
+            if (m.tri[3 * t] == key[0] && m.tri[3 * t + 1] == key[1] && m.tri[3 * t + 2] == key[2]) ta = t;
+        if (ta == m.nt()) continue;
+        TriMesh lobe = l.family == 0 ? tetrahedron() : l.family == 1 ? octahedron() : l.family == 2 ? icosphere(0) : l.family == 3 ? bipyramid(std::max(3, l.param)) : icosphere(1);
+        m = glue(m, ta, lobe, (size_t)l.param % lobe.nt(), l.height);
+    }
+    return m;
+}
+inline rc::Gen<std::vector<LobeSpec>> genLobes() {
+    using namespace vf;
+    return rc::gen::exec([]() {
+        std::vector<LobeSpec> v;
+        const int n = *rc::gen::element(1, 2, 2, 2, 3);
+        for (int i = 0; i < n; i++) {
+            LobeSpec l;
+            l.face = (unsigned)*irange(0, 1000);
+            l.family = *irange(0, 4);
+            l.param = *irange(3, 5);
+            l.height = *uniform(0.4, 1.8);
+            v.push_back(l);
+        }
+        return v;
+    });
+}
+
 struct ShapeSpec {
     int family = 0;      // 0 tetra 1 octa 2 cube 3 icosphere 4 bipyramid 5 prism
     int param = 0;       // icosphere level / n-gon
